@@ -573,6 +573,15 @@ struct Mk
         simrt::functor_owner(owner);
         return b.finish(0);
     }
+    // the functors live inside a parser object whose parse functions are const: they must be reached as const objects.
+    // A functor type with BOTH call operators shows which one the library selects (S123: get_f() const_casts the functor,
+    // a stateful non-const operator() then writes into the parser object on every reduction)
+    template<typename... A>
+    V operator()(A&&... a)
+    {
+        simrt::functor_mutable();
+        return std::as_const(*this)(std::forward<A>(a)...);
+    }
 };
 
 // a functor with an explicitly typed parameter that differs from the stack slot's type (the library converts
@@ -609,6 +618,12 @@ struct MkCtx
         detail::Builder<V> b(Rule);
         (b.add(std::forward<A>(a)), ...);
         return b.finish(category);
+    }
+    template<typename C, typename... A>
+    V operator()(C&& c, A&&... a)
+    {
+        simrt::functor_mutable();
+        return std::as_const(*this)(std::forward<C>(c), std::forward<A>(a)...);
     }
 };
 
